@@ -593,9 +593,11 @@ def parse_subcomponents(text, component_datatype='ST', version=None, encoding_ch
     subcomp_sep = encoding_chars['SUBCOMPONENT']
     subcomponents = []
     for index, subcomponent in enumerate(text.split(subcomp_sep)):
-        if is_base_datatype(component_datatype, version) or component_datatype is None:
+        if is_base_datatype(component_datatype, version) or component_datatype in (None, 'varies'):
+            # (a component of type varies has no structure: its subcomponents are plain text, like those of
+            # an untyped component, and the empty ones keep the positions of the others)
             subcomponent_name = None
-            subcomponent_datatype = component_datatype if component_datatype is not None else 'ST'
+            subcomponent_datatype = component_datatype if component_datatype not in (None, 'varies') else 'ST'
         else:
             subcomponent_name = "{0}_{1}".format(component_datatype, index + 1)
             subcomponent_datatype = None
